@@ -6,6 +6,7 @@ package main
 import (
 	"encoding/hex"
 	"fmt"
+	"golang.org/x/text/encoding/charmap"
 	"math/big"
 	"sort"
 	"strings"
@@ -124,6 +125,51 @@ type Cfg struct {
 	Opts   url.VerifOpts
 }
 
+// the encoding overrides the generators use, by the name the option reports. ISO 8859-1 keeps its short token "1"; any
+// other charmap is sent as a table: "t" + replacement byte + for every byte its decoded code point (4 hex digits) and the
+// byte EncodeRune gives back for that code point (2 hex digits) — everything the code uses of a charmap.
+var charmapsUsed = []*charmap.Charmap{charmap.ISO8859_1, charmap.CodePage037, charmap.Windows1252, charmap.KOI8R, charmap.CodePage437}
+
+func charmapByName(name string) *charmap.Charmap {
+	for _, c := range charmapsUsed {
+		if c.String() == name {
+			return c
+		}
+	}
+	return nil
+}
+
+func charmapTok(name string) string {
+	c := charmapByName(name)
+	if c == nil || c == charmap.ISO8859_1 {
+		return "1"
+	}
+	repl, _ := c.EncodeRune(0x10FFFF)
+	var sb strings.Builder
+	fmt.Fprintf(&sb, "t%02x", repl)
+	for b := 0; b < 256; b++ {
+		r := c.DecodeByte(byte(b))
+		e, ok := c.EncodeRune(r)
+		if !ok {
+			e = repl
+		}
+		fmt.Fprintf(&sb, "%04x%02x", r, e)
+	}
+	return sb.String()
+}
+
+func charmapOfTok(t string) *charmap.Charmap {
+	if t == "1" {
+		return charmap.ISO8859_1
+	}
+	for _, c := range charmapsUsed {
+		if charmapTok(c.String()) == t {
+			return c
+		}
+	}
+	return nil
+}
+
 func cfgTok(o url.VerifOpts, pre, post int) string {
 	flags := 0
 	for i, b := range []bool{o.ReportValidationErrors, o.FailOnValidationError, o.LaxHostParsing, o.CollapseConsecutiveSlashes,
@@ -135,7 +181,7 @@ func cfgTok(o url.VerifOpts, pre, post int) string {
 	}
 	enc := "0"
 	if o.EncodingOverride != "" {
-		enc = "1"
+		enc = charmapTok(o.EncodingOverride)
 	}
 	return fmt.Sprintf("%d,%d,%d,%s,%s,%s,%s,%s,%s,%s", flags, pre, post, enc, schemesTok(o.SpecialSchemes),
 		setTok(o.PathPercentEncodeSet), setTok(o.SpecialQueryPercentEncodeSet), setTok(o.QueryPercentEncodeSet),
